@@ -154,6 +154,36 @@ pub fn run_script(script: &str) -> (bool, String) {
                 ok &= good;
                 log.push_str(&format!("{} -> {}\n", line, if good { "holds" } else { "FAILS" }));
             }
+            "expect-near" => {
+                // expect-near ICAO lat lon km : shown position within km of (lat, lon)
+                let v: Vec<&str> = rest.split_whitespace().collect();
+                let a = u32::from_str_radix(v.first().copied().unwrap_or(""), 16).unwrap_or(0);
+                let (la, lo, km): (f64, f64, f64) = (
+                    v.get(1).and_then(|x| x.parse().ok()).unwrap_or(0.0),
+                    v.get(2).and_then(|x| x.parse().ok()).unwrap_or(0.0),
+                    v.get(3).and_then(|x| x.parse().ok()).unwrap_or(0.02),
+                );
+                match t.get(a) {
+                    None => {
+                        ok = false;
+                        log.push_str(&format!("{} -> FAILS (row absent)\n", line));
+                    }
+                    Some(r) => {
+                        let d = crate::refmodel::cpr::haversine_km(la, lo, r.latf(), r.lonf());
+                        let good = d < km;
+                        ok &= good;
+                        log.push_str(&format!(
+                            "{} -> {} (shown {:.6},{:.6} = {:.4} km away; distance column {:?})\n",
+                            line,
+                            if good { "holds" } else { "FAILS" },
+                            r.latf(),
+                            r.lonf(),
+                            d,
+                            r.distf()
+                        ));
+                    }
+                }
+            }
             "expect-nopanic" => {
                 let good = last_panic.is_none();
                 ok &= good;
